@@ -1,11 +1,12 @@
 #!/bin/bash
-# usage: prepare.sh <scratchdir> [race]  -- copies /repo + iterator, rewrites, builds the worker(s)
+# usage: prepare.sh <scratchdir> [race]  -- copies /repo (or $VERIF_REPO) + iterator, rewrites, builds the worker(s)
 set -e
 S=$1
 export GOFLAGS=-mod=mod GOPROXY=off
 rm -rf "$S"; mkdir -p "$S"
-rsync -a --exclude .git /repo/ "$S/parser2/"
-IT=$(cd /repo && go list -m -f '{{.Dir}}' github.com/hneemann/iterator)
+R=${VERIF_REPO:-/repo}
+rsync -a --exclude .git $R/ "$S/parser2/"
+IT=$(cd $R && go list -m -f '{{.Dir}}' github.com/hneemann/iterator)
 cp -r "$IT" "$S/iterator"; chmod -R u+w "$S/iterator"
 cat >> "$S/parser2/go.mod" <<EOT
 
